@@ -300,6 +300,7 @@ def execute(ctx, esc, cases, origin, nproc, predicted=()):
     nlines = 0
     kinds = {}
     corners = []
+    firsts = {}
     chunk_max = 60000 if quick else 150000
     chunks, cur, curn = [], None, 0
     with open(trace_file) as fh:
@@ -312,6 +313,8 @@ def execute(ctx, esc, cases, origin, nproc, predicted=()):
             kinds[ev] = kinds.get(ev, 0) + 1
             if ev == "Corner":
                 corners.append(json.loads(line))
+            elif ev not in firsts and (ev != "Str" or '"abs":"o2/' in line) and (ev != "Par" or '"ok":true' in line):
+                firsts[ev] = json.loads(line)       # samples: the first accepted string / parameters, first resolution, first rendering
             if cur is None or curn >= chunk_max:
                 if cur:
                     cur.close()
@@ -404,8 +407,8 @@ def execute(ctx, esc, cases, origin, nproc, predicted=()):
         elif n == "variable-named-like-utility" and o.get("procok") and o.get("payload") != "mine":
             ctx.observations.append("a supplied variable named like a utility namespace (strings, json, uid, util, ...) is shadowed: "
                                     "{{ strings }} rendered %r instead of the supplied value" % o.get("payload"))
-    ctx.sample({"case": cases[0], "of": len(cases)})
+    for ev in ("Str", "Par", "Res", "Rnd"):
+        if ev in firsts:
+            ctx.sample({"trace_line": firsts[ev]})
     if recorded:
         ctx.sample({"flagged_line": next(iter(recorded.values()))})
-    with open(trace_file) as fh:
-        ctx.sample({"trace_first_line": json.loads(fh.readline())})
